@@ -8,9 +8,8 @@ Import ListNotations.
    correspondence: mentions may pass through flattened allOf parents, hence the reflexive-transitive closure) *)
 Theorem C07_closed : forall (ss : list sch) (ops : list op) (mentions : N -> N -> Prop),
   (forall a b, mentions a b -> clos_refl_trans N (edge (deps ss)) a b) ->
-  snd (reach ss ops) = true ->
   forall a b, In a (fst (reach ss ops)) -> mentions a b -> In b (fst (reach ss ops)).
-Proof. intros ss ops m Hm Hc a b Ha Hab. eapply reach_closed; eauto. Qed.
+Proof. intros ss ops m Hm a b Ha Hab. eapply reach_closed; eauto. apply reach_always_closed. Qed.
 
 (* every schema an operation's own parameter / body / response schemas refer to is in the expanded set *)
 Theorem C07_operation_refs : forall ss ops x, In x (seeds (build_fp ss) ops) -> In x (fst (reach ss ops)).
@@ -22,19 +21,22 @@ Theorem C07_minimal : forall ss ops x, In x (fst (reach ss ops)) ->
 Proof. exact reach_minimal. Qed.
 
 (* selecting fewer operations never adds a type *)
-Theorem C07_selection_monotone : forall ss ops ops', incl ops ops' -> snd (reach ss ops') = true ->
+Theorem C07_selection_monotone : forall ss ops ops', incl ops ops' ->
   incl (fst (reach ss ops)) (fst (reach ss ops')).
-Proof. exact reach_monotone. Qed.
+Proof. intros ss ops ops' H. apply reach_monotone; [exact H | apply reach_always_closed]. Qed.
+
+(* the saturation that computes the expanded set always closes within its fuel (|edges| rounds) *)
+Theorem C07_fuel_suffices : forall ss ops, snd (reach ss ops) = true.
+Proof. exact reach_always_closed. Qed.
 
 Check C07_closed : forall (ss : list sch) (ops : list op) (mentions : N -> N -> Prop),
   (forall a b, mentions a b -> clos_refl_trans N (edge (deps ss)) a b) ->
-  snd (reach ss ops) = true ->
   forall a b, In a (fst (reach ss ops)) -> mentions a b -> In b (fst (reach ss ops)).
 Check C07_operation_refs : forall ss ops x, In x (seeds (build_fp ss) ops) -> In x (fst (reach ss ops)).
 Check C07_minimal : forall ss ops x, In x (fst (reach ss ops)) ->
   exists s, In s (seeds (build_fp ss) ops) /\ clos_refl_trans N (edge (deps ss)) s x.
-Check C07_selection_monotone : forall ss ops ops', incl ops ops' -> snd (reach ss ops') = true ->
-  incl (fst (reach ss ops)) (fst (reach ss ops')).
+Check C07_selection_monotone : forall ss ops ops', incl ops ops' -> incl (fst (reach ss ops)) (fst (reach ss ops')).
+Check C07_fuel_suffices : forall ss ops, snd (reach ss ops) = true.
 
 (* non-vacuity: Holder{t: map<Tgt>} Other{} Tgt{} Unused{}; one operation returning Holder *)
 Example C07_nonvacuous :
@@ -48,3 +50,4 @@ Print Assumptions C07_closed.
 Print Assumptions C07_operation_refs.
 Print Assumptions C07_minimal.
 Print Assumptions C07_selection_monotone.
+Print Assumptions C07_fuel_suffices.
